@@ -75,3 +75,10 @@ func (t *QUIC) VerifNegotiate(ctx context.Context, q *quic.Conn, s *quic.Stream,
 	}
 	return c.quic, reused, nil
 }
+
+// VerifHandleOutgoing runs the real handleOutgoing for a connection the caller dialed to the peer's listener: what
+// getCachedConnection does after DialEarly (accessor for the unexported method; the peer's accept loop runs the real
+// handleIncoming for the other end).
+func (t *QUIC) VerifHandleOutgoing(ctx context.Context, q *quic.Conn) (*quic.Conn, error) {
+	return t.handleOutgoing(ctx, q)
+}
